@@ -55,7 +55,7 @@ func (rw *LegacyRewrite) matchesQType(qt uint16) (ok bool) {
 }
 
 // normalize makes sure that the new or decoded entry is normalized with regards
-// to domain name case, IP length, and so on.
+// to domain name and canonical name case, IP length, and so on.
 //
 // If rw is nil, it returns an errors.
 func (rw *LegacyRewrite) normalize() (err error) {
@@ -87,6 +87,10 @@ func (rw *LegacyRewrite) normalize() (err error) {
 	if err != nil {
 		log.Debug("normalizing legacy rewrite: %s", err)
 		rw.Type = dns.TypeCNAME
+
+		// Canonical names are compared with the lowercased domain patterns and
+		// request hostnames, so lowercase them as well.
+		rw.Answer = strings.ToLower(rw.Answer)
 
 		return nil
 	}
